@@ -144,17 +144,20 @@ class XRayTransform2D(LinearOperator):
         """
         nx = im.shape
         inds, weights = XRayTransform2D._calc_weights(x0, dx, nx, angles, y0)
-        # Handle out of bounds indices. In the .at call, inds >= y0 are
-        # ignored, while inds < 0 wrap around. So we set inds < 0 to ny.
-        inds = jnp.where(inds >= 0, inds, ny)
+        # Handle out of bounds indices. In the .at call, inds >= ny are
+        # ignored, while inds < 0 wrap around. So we set negative indices
+        # to ny, separately for the two bins: a pixel whose first bin is -1
+        # still contributes to bin 0.
+        first = jnp.where(inds >= 0, inds, ny)
+        second = jnp.where(inds + 1 >= 0, inds + 1, ny)
 
         y = (
             jnp.zeros((len(angles), ny))
-            .at[jnp.arange(len(angles)).reshape(-1, 1, 1), inds]
+            .at[jnp.arange(len(angles)).reshape(-1, 1, 1), first]
             .add(im * weights)
         )
 
-        y = y.at[jnp.arange(len(angles)).reshape(-1, 1, 1), inds + 1].add(im * (1 - weights))
+        y = y.at[jnp.arange(len(angles)).reshape(-1, 1, 1), second].add(im * (1 - weights))
 
         return y
 
@@ -176,14 +179,17 @@ class XRayTransform2D(LinearOperator):
         """
         ny = y.shape[1]
         inds, weights = XRayTransform2D._calc_weights(x0, dx, nx, angles, y0)
-        # Handle out of bounds indices. In the .at call, inds >= y0 are
-        # ignored, while inds < 0 wrap around. So we set inds < 0 to ny.
-        inds = jnp.where(inds >= 0, inds, ny)
+        # Handle out of bounds indices exactly as in _project: bins off the
+        # detector contribute nothing (a plain gather would clamp them to
+        # the first / last bin).
+        first = jnp.where(inds >= 0, inds, ny)
+        second = jnp.where(inds + 1 >= 0, inds + 1, ny)
+        views = jnp.arange(len(angles)).reshape(-1, 1, 1)
 
         # the idea: [y[0, inds[0]], y[1, inds[1]], ...]
-        HTy = jnp.sum(y[jnp.arange(len(angles)).reshape(-1, 1, 1), inds] * weights, axis=0)
+        HTy = jnp.sum(y.at[views, first].get(mode="fill", fill_value=0) * weights, axis=0)
         HTy = HTy + jnp.sum(
-            y[jnp.arange(len(angles)).reshape(-1, 1, 1), inds + 1] * (1 - weights), axis=0
+            y.at[views, second].get(mode="fill", fill_value=0) * (1 - weights), axis=0
         )
 
         return HTy
@@ -339,10 +345,16 @@ class XRayTransform3D(LinearOperator):
         ul_ind, ul_weight, ur_weight, ll_weight, lr_weight = XRayTransform3D._calc_weights(
             im.shape, matrix, proj.shape, slice_offset
         )
-        proj = proj.at[ul_ind[0], ul_ind[1]].add(ul_weight * im, mode="drop")
-        proj = proj.at[ul_ind[0] + 1, ul_ind[1]].add(ur_weight * im, mode="drop")
-        proj = proj.at[ul_ind[0], ul_ind[1] + 1].add(ll_weight * im, mode="drop")
-        proj = proj.at[ul_ind[0] + 1, ul_ind[1] + 1].add(lr_weight * im, mode="drop")
+        big = max(proj.shape)
+
+        def off(i):  # negative indices would wrap around: send them off the detector
+            return jnp.where(i < 0, big, i)
+
+        i0, i1 = ul_ind[0], ul_ind[1]
+        proj = proj.at[off(i0), off(i1)].add(ul_weight * im, mode="drop")
+        proj = proj.at[off(i0 + 1), off(i1)].add(ur_weight * im, mode="drop")
+        proj = proj.at[off(i0), off(i1 + 1)].add(ll_weight * im, mode="drop")
+        proj = proj.at[off(i0 + 1), off(i1 + 1)].add(lr_weight * im, mode="drop")
         return proj
 
     @staticmethod
@@ -380,10 +392,19 @@ class XRayTransform3D(LinearOperator):
         ul_ind, ul_weight, ur_weight, ll_weight, lr_weight = XRayTransform3D._calc_weights(
             HTy.shape, matrix, y.shape, slice_offset
         )
-        HTy = HTy + y[ul_ind[0], ul_ind[1]] * ul_weight
-        HTy = HTy + y[ul_ind[0] + 1, ul_ind[1]] * ur_weight
-        HTy = HTy + y[ul_ind[0], ul_ind[1] + 1] * ll_weight
-        HTy = HTy + y[ul_ind[0] + 1, ul_ind[1] + 1] * lr_weight
+        big = max(y.shape)
+
+        def off(i):  # negative indices would wrap around: send them off the detector
+            return jnp.where(i < 0, big, i)
+
+        def take(a, b):  # detector pixels off the detector contribute nothing (as in _project_single)
+            return y.at[off(a), off(b)].get(mode="fill", fill_value=0)
+
+        i0, i1 = ul_ind[0], ul_ind[1]
+        HTy = HTy + take(i0, i1) * ul_weight
+        HTy = HTy + take(i0 + 1, i1) * ur_weight
+        HTy = HTy + take(i0, i1 + 1) * ll_weight
+        HTy = HTy + take(i0 + 1, i1 + 1) * lr_weight
         return HTy
 
     @staticmethod
@@ -408,7 +429,6 @@ class XRayTransform3D(LinearOperator):
         # left edge lies exactly on a bin edge, which would move the whole footprint one bin to the right
         to_next = jnp.minimum(jnp.floor(left_edge) + 1 - left_edge, w)
         ul_ind = jnp.floor(left_edge).astype("int32")
-        ul_ind = jnp.where(ul_ind < 0, max(output_shape), ul_ind)  # otherwise negative values wrap
 
         ul_weight = to_next[0] * to_next[1] * (1 / w**2)
         ur_weight = (w - to_next[0]) * to_next[1] * (1 / w**2)
